@@ -109,6 +109,8 @@ def run(rep: Report, tier: str, seed: int) -> None:
                                                      ["_helper__", "_attr__", "_m__", "_Cls__", "pubm5"], ["vpkg/sx5/mod/_helper__", "vpkg/sx5/mod/_Cls__", "vpkg/sx5/mod/CPub5/_m__"]),
         "import-inside-a-function-of-init": ({"sx6/__init__.py": "def _lazy6():\n    from ._impl6 import Hidden6\n\n    return Hidden6\n", "sx6/_impl6.py": "class Hidden6:\n    def hm6(self) -> int:\n        return 1\n", "sx6/pub.py": "def p() -> int:\n    return 1\n"},
                                              ["Hidden6", "hm6"], ["vpkg/sx6/_impl6/Hidden6"]),
+        "import-under-type-checking-of-init": ({"sx8/__init__.py": "from typing import TYPE_CHECKING\n\nif TYPE_CHECKING:\n    from ._impl8 import Hidden8\n", "sx8/_impl8.py": "class Hidden8:\n    def hm8(self) -> int:\n        return 1\n", "sx8/pub.py": "def p() -> int:\n    return 1\n"},
+                                               ["Hidden8", "hm8"], ["vpkg/sx8/_impl8/Hidden8"]),
         "star-reexport-with-all": ({"sx7/__init__.py": "from ._star7 import *\n", "sx7/_star7.py": "__all__ = [\"Listed7\"]\n\n\nclass Listed7:\n    pass\n\n\nclass NotListed7:\n    def nl7(self) -> int:\n        return 1\n", "sx7/pub.py": "def p() -> int:\n    return 1\n"},
                                    ["NotListed7", "nl7"], ["vpkg/sx7/_star7/NotListed7"]),
         "function-name-suffix": ({"sx3/__init__.py": "from ._m import run\n", "sx3/_m.py": "def run() -> int:\n    return 1\n\n\ndef dry_run() -> int:\n    return 1\n\n\ndef rerun() -> int:\n    return 1\n",
